@@ -63,6 +63,7 @@ type c18Op struct {
 
 type c18Scenario struct {
 	NoCache     bool
+	WrapMiss    bool
 	Discard     bool
 	URLKind     int
 	FrShape     int
@@ -95,6 +96,7 @@ func genC18(t *Tape, hostile bool) *c18Scenario {
 	sc := &c18Scenario{}
 	sc.NoCache = t.Bool(12)
 	sc.Discard = t.Bool(50)
+	sc.WrapMiss = t.Bool(35)
 	sc.URLKind = t.Weighted(88, 3, 3, 2, 1, 1, 1, 1)
 	sc.FrShape = []int{FrURIs, FrAbsent, FrTwoDPs, FrEmptySeq, FrNonURI, FrNoDPName, FrURIThenNonURI, FrMalformed, FrRelativeName, FrNonURIThenURI, FrNamelessThenURIs, FrIssuerOnlyThenURIs, FrBadNameTLV, FrBadURITLV, FrGarbageAfterURI}[t.Weighted(34, 19, 10, 4, 4, 4, 5, 3, 3, 2, 4, 4, 1, 1, 2)]
 	sc.NDelta = 1 + t.Weighted(55, 30, 15)
@@ -268,12 +270,14 @@ func (sc *c18Scenario) exec(obs *c18Obs) {
 	obs.W = w
 	w.baseURL = makeURL(sc.URLKind, "crl.c18.sim", "/ca.crl")
 	for i := 0; i < sc.NDelta; i++ {
-		w.dURLs = append(w.dURLs, makeURL(sc.DeltaKinds[i], fmt.Sprintf("delta%d.c18.sim", i), "/delta.crl"))
+		// advertised order deliberately differs from lexicographic order
+		w.dURLs = append(w.dURLs, makeURL(sc.DeltaKinds[i], fmt.Sprintf("delta%d.c18.sim", 2-i), "/delta.crl"))
 	}
 	w.publish(true, true, time.Now())
 	nt := NewNet()
 	var schemes []string
 	cache := NewSimCache()
+	cache.WrapMiss = sc.WrapMiss
 	cache.Declare(w.baseURL)
 	client := &http.Client{Transport: roundTripFunc(func(req *http.Request) (*http.Response, error) {
 		schemes = append(schemes, req.URL.Scheme+"://"+req.URL.Host)
@@ -650,7 +654,7 @@ func describeC18(sc *c18Scenario) any {
 		}
 		ops = append(ops, s)
 	}
-	return map[string]any{"no_cache": sc.NoCache, "discard_cache_error": sc.Discard, "url_kind": urlKindNames[sc.URLKind], "freshest_shape": sc.FrShape, "delta_locations": sc.NDelta,
+	return map[string]any{"cache_wraps_miss": sc.WrapMiss, "no_cache": sc.NoCache, "discard_cache_error": sc.Discard, "url_kind": urlKindNames[sc.URLKind], "freshest_shape": sc.FrShape, "delta_locations": sc.NDelta,
 		"base_validity_s": sc.BaseValidS, "delta_validity_s": sc.DeltaValidS, "timeout_ms": sc.Timeout.Milliseconds(), "ops": ops}
 }
 
